@@ -29,8 +29,8 @@ CONSTANTS User,            \* usernames (strings)
           MaxClock, MaxStreak, MaxReconf,
           Impl
 
-EffLimit(l) == IF l >= 98 THEN DefaultLimit ELSE l
-EffLock(d)  == IF d = 0 \/ d >= 98 THEN DefaultLockout ELSE d
+EffLimit(l) == IF l \in {98, 99} THEN DefaultLimit ELSE l
+EffLock(d)  == IF d \in {0, 98, 99} THEN DefaultLockout ELSE d
 
 NoRec == [on |-> FALSE, failures |-> 0, last |-> 0, until |-> 0]
 
